@@ -44,3 +44,9 @@ func main() {
 		}
 	}
 }
+
+// register2 registers a generator that needs no harness directory.
+func register2(name string, f func(repo, out string) error) {
+	generators[name] = func(repo, out, _ string) error { return f(repo, out) }
+}
+
